@@ -112,7 +112,7 @@ def rule_name_pairing(check: Check, repo) -> None:
 
 def run(tier: str) -> Check:
     check = Check("C13", tier, EXPLANATION)
-    check.rules = ["FURTHEST", "FAIL-SITE", "FAILLABEL", "FAILPOS", "FRAMES", "NEG", "SUPPRESS", "FAIL-PARITY", "ESCAPE-RENDER", "LINE-OFFSET", "CASE"]
+    check.rules = ["FURTHEST", "FAIL", "FAIL-SITE", "FAILLABEL", "FAILPOS", "FRAMES", "NEG", "SUPPRESS", "FAIL-PARITY", "ESCAPE-RENDER", "LINE-OFFSET", "CASE"]
     check.assumptions = [
         "that the line/column/source line shown are those of p: only the partition premise (LINE-OFFSET) of error_context is decided, not its arithmetic",
         "start_pos <= p relies on C16's position-write discipline and on callers passing 0 <= start_pos <= len(text)",
@@ -120,6 +120,19 @@ def run(tier: str) -> Check:
     repo, _ = fill(check, tier, floors={"parse_paths": 120, "skeleton_paths": 120})
     provenance(check, repo)
     rule_name_pairing(check, repo)
+    from ..failsem import check_fail
+
+    construct = f"{STATE_REL}::ParserState.fail"
+    n, bad = check_fail(repo, construct, tier == "thorough")
+    check.count("fail_model_histories", n)
+    check.oblige("FAIL", construct, f"on all {n} model histories the record is the one a reference keeps" if not bad else f"{len(bad)} of {n} model histories leave a wrong record (per category below)", True, sample=True)
+    cats: dict[str, list[str]] = {}
+    for cat, msg in bad:
+        cats.setdefault(cat, []).append(msg)
+    for cat, msgs in sorted(cats.items()):
+        sig = f"fail(): {cat}"
+        check.oblige("FAIL", construct, sig, False, sample=True, finding=Finding("FAIL", construct, sig, f"{sig}: e.g. {msgs[0]} ({len(msgs)} of {n} model histories)", {"witness": msgs[0]}))
+    check.floor("fail_model_histories", 300)
     for r in RENDER:
         t, _ = run_entry(check, repo, r, set(), "ESCAPE-RENDER")
         check.count("escaping_sites_examined", t)
